@@ -35,6 +35,7 @@ type pairModel struct {
 	enforcerRm   *ssa.Function
 	enforcerDlv  *ssa.Function
 	enforcerLoop *ssa.Function
+	phiBusy      map[*ssa.Phi]bool
 	adds         []removeSite
 	removes      []removeSite
 	loads        []removeSite
@@ -84,6 +85,42 @@ func (c *Ctx) pairing() *pairModel {
 					if st.Dir == types.RecvOnly && eng.SameField(eng.LoadedField(st.Chan), m.fRemove) {
 						m.enforcerLoop = fn
 					}
+				}
+			}
+		})
+	}
+	// the rendezvous may be a shared helper taking the channel as a parameter
+	// (enforcerSend(s.remove, m)): the role then belongs to the function that passes the field
+	for _, fn := range pkgFuncs(p, "pkg/storage/mem") {
+		fn := fn
+		eng.EachInstr(fn, func(in ssa.Instruction) {
+			call, ok := in.(*ssa.Call)
+			if !ok {
+				return
+			}
+			g := eng.StaticCallee(call.Common())
+			if g == nil || eng.FuncPkgPath(g) != eng.Mod+"/pkg/storage/mem" {
+				return
+			}
+			for i, a := range call.Call.Args {
+				f := eng.LoadedField(eng.StripConv(a))
+				if f == nil || i >= len(g.Params) {
+					continue
+				}
+				sends := false
+				for _, ref := range *g.Params[i].Referrers() {
+					if sd, ok := ref.(*ssa.Send); ok && sd.Chan == ssa.Value(g.Params[i]) {
+						sends = true
+					}
+				}
+				if !sends {
+					continue
+				}
+				if eng.SameField(f, m.fRemove) && m.enforcerRm == nil {
+					m.enforcerRm = fn
+				}
+				if eng.SameField(f, m.fIncoming) && m.enforcerDlv == nil {
+					m.enforcerDlv = fn
 				}
 			}
 		})
@@ -177,7 +214,7 @@ func (m *pairModel) classify() {
 
 // isMsgContainer: v is (a snapshot of) one of the message containers.
 func (m *pairModel) isMsgContainer(v ssa.Value, depth int) bool {
-	if depth > 6 {
+	if depth > 14 {
 		return false
 	}
 	if f := eng.LoadedField(v); eng.SameField(f, m.memMsgs) || eng.SameField(f, m.fileMsgs) {
@@ -207,13 +244,40 @@ func (m *pairModel) isMsgContainer(v ssa.Value, depth int) bool {
 
 // isRemovedSlice: v is a slice built only by appending removed messages.
 func (m *pairModel) isRemovedSlice(v ssa.Value, depth int) bool {
-	if depth > 6 {
+	if depth > 14 {
 		return false
 	}
 	switch x := v.(type) {
 	case *ssa.Const:
 		return x.IsNil()
+	case *ssa.Phi:
+		// a lifted accumulator: nil | append(itself, removed...)
+		if m.phiBusy == nil {
+			m.phiBusy = map[*ssa.Phi]bool{}
+		}
+		if m.phiBusy[x] {
+			return true
+		}
+		m.phiBusy[x] = true
+		defer delete(m.phiBusy, x)
+		for _, e := range x.Edges {
+			if !m.isRemovedSlice(e, depth+1) {
+				return false
+			}
+		}
+		return true
 	case *ssa.Call:
+		if eng.CalleeName(x.Common()) != "builtin.append" {
+			// a module helper returning the removed messages
+			if rets, g := eng.ReturnedValues(x, 0); g != nil && len(rets) > 0 {
+				for _, rv := range rets {
+					if !m.isRemovedSlice(rv, depth+1) {
+						return false
+					}
+				}
+				return true
+			}
+		}
 		if eng.CalleeName(x.Common()) == "builtin.append" {
 			base, arg := x.Call.Args[0], x.Call.Args[1]
 			if !(m.isRemovedSliceOrSelf(base, depth+1)) {
@@ -265,7 +329,7 @@ func (m *pairModel) isRemovedSliceOrSelf(v ssa.Value, depth int) bool {
 
 // isRemovedSliceOrSelfCell: append(load(cell), removed...) stored back to the same cell.
 func (m *pairModel) isRemovedSliceOrSelfCell(v ssa.Value, cell *ssa.Alloc, depth int) bool {
-	if depth > 8 {
+	if depth > 14 {
 		return false
 	}
 	if call, ok := v.(*ssa.Call); ok && eng.CalleeName(call.Common()) == "builtin.append" {
@@ -299,7 +363,7 @@ func (m *pairModel) isRemovedSliceOrSelfCell(v ssa.Value, cell *ssa.Alloc, depth
 // removedOrigin: every non-nil source of v is an element of a message container (looked
 // up, ranged over, indexed) or the result of a removal helper.
 func (m *pairModel) removedOrigin(v ssa.Value, depth int) bool {
-	if depth > 10 {
+	if depth > 14 {
 		return false
 	}
 	switch x := v.(type) {
@@ -549,6 +613,11 @@ func (m *pairModel) checkIn(T *ssa.Function, ri ssa.Instruction, effect string, 
 	switch effect {
 	case "deleted-event":
 		pred = m.deletedEmitPred()
+	case "enforcer-deliver":
+		pred = func(in ssa.Instruction) bool {
+			call, ok := in.(*ssa.Call)
+			return ok && eng.StaticCallee(call.Common()) == m.enforcerDlv
+		}
 	case "enforcer-account":
 		pred = m.enforcerRemovePred()
 		allowOff = true
@@ -569,6 +638,9 @@ func (m *pairModel) checkIn(T *ssa.Function, ri ssa.Instruction, effect string, 
 		if fwd == nil {
 			return pairVerdict{true, p.InstrPos(effects[0]), fmt.Sprintf("every path from the removal (%s) to return passes %s for the removed message(s), except edges on which nothing was removed", p.InstrPos(ri), effect)}
 		}
+		if effect == "enforcer-deliver" {
+			return pairVerdict{false, p.InstrPos(ri), fmt.Sprintf("a path from the insert at %s to return at %s does not call enforcerDeliver", p.InstrPos(ri), p.InstrPos(fwd))}
+		}
 		// backward: entry → removal must pass an effect (effect announced before removing)
 		bwd := (&eng.Search{Target: func(in ssa.Instruction) bool { return in == ri }, Avoid: pred, Edge: edgeOK}).FromEntry(T)
 		if bwd == nil {
@@ -576,7 +648,29 @@ func (m *pairModel) checkIn(T *ssa.Function, ri ssa.Instruction, effect string, 
 		}
 		return pairVerdict{false, p.InstrPos(ri), fmt.Sprintf("%s exists in %s but can be bypassed: path from the removal at %s reaches return at %s without it (and not via a nothing-removed edge)", effect, shortFn(T), p.InstrPos(ri), p.InstrPos(fwd))}
 	}
-	// not in T: every caller must do it around its call of T
+	// not in T. A closure is lifted to the function that creates it (the removal then is the
+	// call that receives the closure); otherwise every caller must do it around its call of T.
+	if par := T.Parent(); par != nil {
+		var site ssa.Instruction
+		eng.EachInstr(par, func(in ssa.Instruction) {
+			call, ok := in.(*ssa.Call)
+			if !ok {
+				return
+			}
+			for _, a := range call.Call.Args {
+				if mc, ok := a.(*ssa.MakeClosure); ok && mc.Fn == ssa.Value(T) {
+					site = in
+				}
+			}
+		})
+		if site != nil {
+			v := m.checkIn(par, site, effect, depth+1, seen)
+			if !v.ok {
+				return pairVerdict{false, v.where, v.detail}
+			}
+			return v
+		}
+	}
 	callers := p.CallersOf(T)
 	if len(callers) == 0 || T.Object() != nil && T.Object().Exported() && T.Signature.Recv() != nil && isStoreAPI(T) {
 		return pairVerdict{false, p.InstrPos(ri), fmt.Sprintf("no %s for the message(s) removed at %s: neither in %s nor (API method) anywhere a caller could compensate", effect, p.InstrPos(ri), shortFn(T))}
